@@ -172,24 +172,30 @@ type fileScn struct {
 	nm    int
 	id    int
 	watch *reloadWatch
+	link  bool // the configured name is a symbolic link to the current generation of the file
+	gen   map[int]int
 }
 
 // reloadWatch collects the watcher's reload events per file name.
 type reloadWatch struct {
 	mu     sync.Mutex
+	alias  map[string]string // what the configured name resolved to at set-up -> the configured name
 	ch     map[string]chan string
 	busy   map[string]bool
 	missed int
 }
 
 func newReloadWatch() *reloadWatch {
-	w := &reloadWatch{ch: map[string]chan string{}, busy: map[string]bool{}}
+	w := &reloadWatch{ch: map[string]chan string{}, busy: map[string]bool{}, alias: map[string]string{}}
 	verifhook.Install(func(site string, kv ...interface{}) {
 		if !strings.HasPrefix(site, "file.reload.") {
 			return
 		}
 		fn := kv[1].(string)
 		w.mu.Lock()
+		if a, ok := w.alias[fn]; ok {
+			fn = a // whichever name the plugin works with, it is this instance's file
+		}
 		c := w.ch[fn]
 		if site == "file.reload.begin" {
 			w.busy[fn] = true
@@ -225,7 +231,24 @@ func newFileScn(t *Trace, dir string, id int, r *rand.Rand, w *reloadWatch) *fil
 func (s *fileScn) setup(p int, auto bool, ls []fline) bool {
 	fn := filepath.Join(s.dir, fmt.Sprintf("leases-%d-v%d.txt", s.id, p))
 	s.path[p] = fn
-	if err := os.WriteFile(fn, []byte(renderFile(p, ls, s.r)), 0o644); err != nil {
+	if s.link {
+		// leases-..txt -> leases-..txt.gen0 ; updates are published by re-pointing the link (relink)
+		os.Remove(fn)
+		g0 := fn + ".gen0"
+		if err := os.WriteFile(g0, []byte(renderFile(p, ls, s.r)), 0o644); err != nil {
+			panic(err)
+		}
+		if err := os.Symlink(filepath.Base(g0), fn); err != nil {
+			panic(err)
+		}
+		if s.gen == nil {
+			s.gen = map[int]int{}
+		}
+		s.gen[p] = 0
+		s.watch.mu.Lock()
+		s.watch.alias[g0] = fn
+		s.watch.mu.Unlock()
+	} else if err := os.WriteFile(fn, []byte(renderFile(p, ls, s.r)), 0o644); err != nil {
 		panic(err)
 	}
 	args := []string{fn}
@@ -270,6 +293,26 @@ func (s *fileScn) step(p int, op string, whole []fline, added []fline) {
 	fn := s.path[p]
 	old, _ := os.ReadFile(fn)
 	switch op {
+	case "relink":
+		// a new generation next to the old one, the link re-pointed with one rename, the old generation deleted
+		// (the way configuration managers publish a file); the LAST update of a scenario: the watch dies with the old file
+		g := s.gen[p] + 1
+		s.gen[p] = g
+		ng, og := fmt.Sprintf("%s.gen%d", fn, g), fmt.Sprintf("%s.gen%d", fn, g-1)
+		if err := os.WriteFile(ng, []byte(renderFile(p, whole, s.r)), 0o644); err != nil {
+			panic(err)
+		}
+		tmp := fn + ".lnk"
+		os.Remove(tmp)
+		if err := os.Symlink(filepath.Base(ng), tmp); err != nil {
+			panic(err)
+		}
+		if err := os.Rename(tmp, fn); err != nil {
+			panic(err)
+		}
+		if err := os.Remove(og); err != nil {
+			panic(err)
+		}
 	case "trunc":
 		if err := os.Truncate(fn, 0); err != nil {
 			panic(err)
@@ -730,6 +773,42 @@ func runFile(args []string) error {
 				if !ok {
 					break
 				}
+			}
+		}
+	case "link":
+		// the configured name is a symbolic link: in-place updates through it, then ONE update published by re-pointing
+		// the link and deleting the old generation; the served mapping must follow (v4, v6, dual-stack)
+		for k := *shard; k < *count; k += *shards {
+			r := rand.New(rand.NewSource(*seed*7919 + int64(k)))
+			s := newFileScn(t, *dir, 5000+k, r, w)
+			s.link = true
+			protos := [][]int{{4}, {6}, {4, 6}, {6, 4}}[k%4]
+			cur := map[int][]fline{}
+			okAll := true
+			for _, p := range protos {
+				cur[p] = randFile(alpha, r, true, 3)
+				if !s.setup(p, true, cur[p]) {
+					okAll = false
+				}
+			}
+			if !okAll {
+				continue
+			}
+			s.queryAll()
+			for i := r.Intn(3); i > 0; i-- {
+				p := protos[r.Intn(len(protos))]
+				add := randFile(alpha, r, r.Intn(3) != 0, 2)
+				if len(add) == 0 {
+					add = []fline{alpha[2+r.Intn(4)]}
+				}
+				cur[p] = append(append([]fline(nil), cur[p]...), add...)
+				s.step(p, "append", cur[p], add)
+				s.queryAll()
+			}
+			for _, p := range protos {
+				nf := randFile(alpha, r, r.Intn(4) != 0, 3)
+				s.step(p, "relink", nf, nil)
+				s.queryAll()
 			}
 		}
 	case "auto":
